@@ -82,6 +82,9 @@ def run(chk: Check) -> None:
         chk.functions.add(a.f.qualname)
     _coverage(chk, schema, pf, msgs)
     _write_paths(chk, schema, pf, msgs)
+    _whole_collections(chk, schema, pf, msgs)
+    _fresh_objects(chk, schema, pf)
+    _presence_flag(chk, pf)
     _writer_agreement(chk, schema, pf, msgs)
     _reader_agreement(chk, schema, pf, msgs)
     _enums(chk, schema, pf)
@@ -906,3 +909,127 @@ def _write_paths(chk: Check, schema: Schema, pf: ProtoFlow, msgs: List[str]) -> 
                    "although nothing about its source value was tested"
                    % (fq, m, gname, " -> ".join(cfg.describe_path(wit)) if wit else "-"), 3)
     chk.floor("R02.1", "field groups checked for path coverage", n, 55)
+
+
+def _iter_source_ok(it: ast.AST, want: str, al: Dict[str, ast.AST]) -> Tuple[bool, str]:
+    """is ``it`` the whole collection <obj>.<want> (optionally .items()/.values()/.keys(),
+    sorted(...), list(...))?"""
+    e = it
+    if isinstance(e, ast.Name) and e.id in al:
+        e = al[e.id]
+    while isinstance(e, ast.Call) and attr_path(e.func) in (("sorted",), ("list",), ("tuple",), ("iter",)) and e.args:
+        e = e.args[0]
+    if isinstance(e, ast.Call) and isinstance(e.func, ast.Attribute) and \
+            e.func.attr in ("items", "values", "keys") and not e.args:
+        e = e.func.value
+    if isinstance(e, ast.Call) and isinstance(e.func, ast.Attribute) and e.func.attr == "_to_protobuf":
+        return True, ""       # a sub-writer yields its own elements (CFG edges)
+    if isinstance(e, ast.Call) and isinstance(e.func, ast.Attribute) and e.func.attr == "edges":
+        return True, ""
+    p = attr_path(e)
+    if p and p[-1] == want and len(p) >= 2:
+        return True, ""
+    return False, unparse(it)[:60]
+
+
+def _whole_collections(chk: Check, schema: Schema, pf: ProtoFlow, msgs: List[str]) -> None:
+    """R02.2: a repeated / map field is filled from the WHOLE attribute it mirrors: the
+    iteration source is <obj>.<pi(f)> itself (or its items()), unfiltered - not a lookup or a
+    filtered comprehension"""
+    n = 0
+    for w in pf.writes:
+        if w.msg not in msgs or w.how not in ("extend", "mapitem", "append", "add"):
+            continue
+        fld = schema.messages[w.msg].fields[w.field]
+        if fld.label not in ("repeated", "map") or (w.msg, w.field) in WRITE_EXEMPT:
+            continue
+        want = PI.get((w.msg, w.field), w.field)
+        al = local_aliases(w.f.node)
+        sources: List[Tuple[ast.AST, bool]] = []     # (iteration expr, filtered?)
+        v = w.value
+        if isinstance(v, ast.Name) and v.id in al:
+            v = al[v.id]
+        if isinstance(v, (ast.GeneratorExp, ast.ListComp, ast.SetComp)) and w.how != "mapitem":
+            g = v.generators[0]
+            sources.append((g.iter, bool(g.ifs) or len(v.generators) > 1))
+        elif w.how != "mapitem" and v is not None:
+            sources.append((v, False))
+        cur = getattr(w.node, "_parent", None)
+        filtered = False
+        prev: ast.AST = w.node
+        while cur is not None and cur is not w.f.node:
+            if isinstance(cur, ast.If) and w.how == "mapitem":
+                # an if around the store filters entries (isinstance dispatch on the value is fine)
+                t = unparse(cur.test)
+                if "isinstance(" not in t:
+                    filtered = True
+            if isinstance(cur, ast.For):
+                if w.how == "mapitem":
+                    sources.append((cur.iter, filtered or any(
+                        isinstance(x, (ast.Continue, ast.Break)) for x in ast.walk(cur))))
+                break
+            prev, cur = cur, getattr(cur, "_parent", None)
+        if not sources:
+            continue
+        n += 1
+        it, flt = sources[-1]
+        ok, why = _iter_source_ok(it, want, al)
+        chk.ob("R02.2", "%s.%s@%s:whole-collection" % (w.msg, w.field, w.f.qualname), ok and not flt, w.loc,
+               "%s.%s must be filled from the whole of <obj>.%s; %s iterates %s%s: members outside that "
+               "selection are silently not written" % (w.msg, w.field, want, w.f.qualname,
+                                                        why or unparse(it)[:60], " with a filter" if flt else ""), 3)
+    chk.floor("R02.2", "repeated/map field writers", n, 9)
+
+
+def _fresh_objects(chk: Check, schema: Schema, pf: ProtoFlow) -> None:
+    """R02.3: every entry of a repeated/map field yields its own freshly decoded object: in a
+    reader loop the variable that is stored is bound once, straight from the decoding call"""
+    for r in pf.reads:
+        if r.how != "load" or r.msg not in schema.messages:
+            continue
+        fld = schema.messages[r.msg].fields.get(r.field)
+        if fld is None or fld.label != "map" or fld.type not in schema.messages:
+            continue
+        # for <k>, <v> in <read>.items():
+        par = getattr(r.node, "_parent", None)
+        loop = None
+        cur = r.node
+        while cur is not None and not isinstance(cur, ast.FunctionDef):
+            if isinstance(cur, ast.For) and any(x is r.node for x in ast.walk(cur.iter)):
+                loop = cur
+                break
+            cur = getattr(cur, "_parent", None)
+        if loop is None or not isinstance(loop.target, ast.Tuple) or len(loop.target.elts) != 2:
+            continue
+        kv = [e.id if isinstance(e, ast.Name) else None for e in loop.target.elts]
+        stores = [s_ for s_ in ast.walk(loop) if isinstance(s_, ast.Assign)
+                  and isinstance(s_.targets[0], ast.Subscript) and attr_path(s_.targets[0].slice) == (kv[0],)]
+        for st in stores:
+            v = st.value
+            if not isinstance(v, ast.Name):
+                continue
+            binds = [a for a in ast.walk(loop) if isinstance(a, (ast.Assign, ast.AugAssign, ast.AnnAssign))
+                     and any(isinstance(t, ast.Name) and t.id == v.id
+                             for t in (a.targets if isinstance(a, ast.Assign) else [a.target]))]
+            ok = len(binds) == 1 and isinstance(binds[0], ast.Assign) and isinstance(binds[0].value, ast.Call) \
+                and any(isinstance(x, ast.Name) and x.id == kv[1] for x in ast.walk(binds[0].value))
+            chk.ob("R02.3", "%s.%s@%s:fresh-object-per-entry" % (r.msg, r.field, r.f.qualname), ok, r.f.loc(st),
+                   "the object stored for each %s.%s entry must be the one freshly decoded from that "
+                   "entry; '%s' is bound %d time(s) in the loop (%s): entries can end up sharing one "
+                   "object" % (r.msg, r.field, v.id, len(binds),
+                               "; ".join(unparse(b)[:50] for b in binds)), 2)
+
+
+def _presence_flag(chk: Check, pf: ProtoFlow) -> None:
+    """R02.3: address presence on load is decided by has_address alone"""
+    for r in pf.read("ByteInterval", "has_address"):
+        if r.how != "load":
+            continue
+        par = getattr(r.node, "_parent", None)
+        ok = isinstance(par, (ast.IfExp, ast.If)) and par.test is r.node
+        if isinstance(par, ast.UnaryOp) and isinstance(par.op, ast.Not):
+            gp = getattr(par, "_parent", None)
+            ok = isinstance(gp, (ast.IfExp, ast.If)) and gp.test is par
+        chk.ob("R02.3", "ByteInterval.has_address@%s:sole-presence-test" % r.f.qualname, ok, r.loc,
+               "whether a loaded interval has an address must be decided by the has_address field "
+               "alone, got %s" % unparse(par)[:70], 2)
